@@ -428,9 +428,9 @@ MUTANTS = [
          new='''                            if let Some(_removed) = cache.peek(&prepared_stmt_name) {'''),
     dict(id="c08-parse-query-lossy", prop="C08", file="src/messages.rs", expect="C08-R9",
          what="D19 again: the query text of a Parse is decoded lossily before it is re-encoded",
-         old='''        let query = read_cstring_bytes(&mut cursor)?;
-        let num_params = cursor.get_i16();''', new='''        let query = cursor.read_string()?.into_bytes();
-        let num_params = cursor.get_i16();'''),
+         old='''        let name = cursor.read_string()?;
+        let query = read_cstring_bytes(&mut cursor)?;''', new='''        let name = cursor.read_string()?;
+        let query = cursor.read_string()?.into_bytes();'''),
     dict(id="c08-bind-rename-lossy-length", prop="C08", file="src/messages.rs", expect="C08-R9",
          what="D19 again: Bind::rename measures the lossily decoded statement name",
          old='''        let prepared_statement = read_cstring_bytes(&mut cursor)?;
@@ -690,19 +690,15 @@ pub struct ServerPool {'''),
             self.connected_to_server = false;''', new='''            self.connected_to_server = false;'''),
     dict(id="c18-sync-not-counted", prop="C18", file="src/client.rs", expect="C18-R5",
          what="Sync arm releases without counting the transaction on the server",
-         old="""                        self.buffer.clear();
-
-                        // A COPY that has only started is counted, and the server released, when it ends.
-                        if !server.in_transaction() && !server.in_copy_mode() {
-                            self.stats.transaction();
-                            server
-                                .stats()
-                                .transaction(self.server_parameters.get_application_name());
-""", new="""                        self.buffer.clear();
-
-                        // A COPY that has only started is counted, and the server released, when it ends.
-                        if !server.in_transaction() && !server.in_copy_mode() {
-                            self.stats.transaction();
+         old="""                            if should_send_to_server {
+                                self.stats.transaction();
+                                server
+                                    .stats()
+                                    .transaction(self.server_parameters.get_application_name());
+                            }
+""", new="""                            if should_send_to_server {
+                                self.stats.transaction();
+                            }
 """),
     dict(id="c18-failed-checkout-stays-waiting", prop="C18", file="src/client.rs", expect="C18-R3",
          what="failed checkout leaves the client waiting",
@@ -1191,6 +1187,24 @@ where
                 pool.resume();
             }""", new="""            let _ = &identifier;
             pool.resume();"""),
+    dict(id="c14-reload-lock-dropped-early", prop="C14", file="src/config.rs", expect="C14-R2",
+         what="the reload lock is released before the pools are built (D72 again)",
+         old="""    let _reload = RELOAD_LOCK.lock().await;
+""", new="""    drop(RELOAD_LOCK.lock().await);
+"""),
+    dict(id="c18-local-batch-counted", prop="C18", file="src/client.rs", expect="C18-R5",
+         what="a batch answered from the statement cache alone is counted as a transaction (D73 again)",
+         old="""                            if should_send_to_server {
+                                self.stats.transaction();
+                                server
+                                    .stats()
+                                    .transaction(self.server_parameters.get_application_name());
+                            }
+""", new="""                            self.stats.transaction();
+                            server
+                                .stats()
+                                .transaction(self.server_parameters.get_application_name());
+"""),
     # ------------------------------------------------------------------ C17
     dict(id="c17-shutdown-checked-in-transaction", prop="C17", file="src/client.rs", expect="C17-R1",
          what="the transaction loop also reacts to the shutdown broadcast",
